@@ -23,7 +23,8 @@ def pool():
         frags = ["", "1", "12", "a", "\n", "1\n", "1\n-->", "1\n00:00:01,000 --> 00:00:02,000\nx\n", "{1}{2}x",
                  "{0}{0}25", "WEBVTT", "WEBVTT\n\n", "<sami>", "<SAMI></SAMI>", "</tt>", "<tt></tt>",
                  "Scenarist_SCC V1.0", "Scenarist_SCC V1.0\n\n00:00:00:00\t9420", "x\n-->", "-->", "1\nx", "12\n-->\n",
-                 "\n1\n-->", " ", "\n\n", "a\nb", "1\n\n"]
+                 "\n1\n-->", " ", "\n\n", "a\nb", "1\n\n",
+                 "\u00b2", "\u00b2\n-->", "\u2460\n-->"]         # (digits for str.isdigit() that int() rejects)
         POOL = list(dict.fromkeys(frags + [a + b for a in frags for b in frags]))
     return POOL
 
@@ -106,14 +107,18 @@ T = lambda s: CaptionNode.create_text(s)
 
 def sample_sets(rng):
     texts = ["hello", "two words", "Ünï çødé", "a & b", "x < y", "1", "12", "{1}{2}", "plain; text.", "it's \"quoted\"",
-             "x" * 33, "see www.example.org/captions/files/season1/episode12 now", "Donaudampfschifffahrtsgesellschaftskapitaen"]
+             "x" * 33, "see www.example.org/captions/files/season1/episode12 now", "Donaudampfschifffahrtsgesellschaftskapitaen",
+             # text that talks about formats without containing a marker (markers are WEBVTT in capitals, --> , <sami, </tt>,
+             # the Scenarist header as first line, {n}{n} at the start of a line), and character references that are not valid
+             "export the subtitles as webvtt or srt", "Webvtt, Scenarist_SCC v1.0 and sami", "tt is not /tt", "In hex that is &#XE9; or &#xe9;",
+             "&#1114112; &#99999999999; &#xD800; are invalid", "a -> b, not an arrow"]
     out = []
-    for i in range(14):
+    for i in range(14):            # (3 cues x 14 sets walk through all the texts)
         caps = []
         # integer microseconds, and the fractional times the SCC reader and adjust_caption_timing produce
         t = (10 ** 6 if i % 3 else 1001000 * 10 / 30 * 3) if i % 5 != 4 else (0 if i == 4 else 999)       # (also a first cue at time zero)
         for j in range(rng.choice([1, 2, 3])):
-            nodes = [T(texts[(i + j) % len(texts)] if i < len(texts) else rng.choice(texts))]
+            nodes = [T(texts[(i * 3 + j) % len(texts)])]
             if rng.random() < 0.5:
                 nodes += [CaptionNode.create_break(), T(rng.choice(texts))]
             if i % 4 == 1 and j == 0:
@@ -174,6 +179,13 @@ def bounded_sequences(ctx, b):
     """the answer for a string does not depend on what was detected before: every ordered pair (document of
     one format, string accepted by more than one reader or by none) in one process"""
     from props import samples
+    # first lines that str.isdigit() accepts but int() may not: detection never raises
+    for s in ["\u00b2\n00:00:01,000 --> 00:00:02,000\nx\n", "1\u00b9\n-->", "\u2460\n-->", "\u0663\n00:00:01,000 --> 00:00:02,000\nx", "9" * 5000 + "\n-->",
+              "\u00b2", "\u2460\n", "\u00bd\n-->", "\u0967\n-->\n"]:
+        def dig(s=s):
+            got = detect_format(s)
+            return got is reference_detect(s), {"string": s[:40], "got": repr(got)}
+        b.guard(("digits", s[:20], len(s)), dig, sample=s[:40])
     firsts = [docs[0] for docs in samples.all_docs().values()] + ["no format at all"]
     seconds = ["1\n-->WEBVTT", "WEBVTT\n\n1\n00:01.000 --> 00:02.000\nx", "1\n00:00:01,000 --> 00:00:02,000\nsee WEBVTT\n",
                "Scenarist_SCC V1.0\n\n00:00:01:00\t9420 </tt>", "{1}{2}</tt>", "{1}{2}<sami>", "<sami>\n1\n-->", "{1}{2}WEBVTT", "{1}{2}x\n1\n-->",
